@@ -16,6 +16,12 @@ What "denotes the state" means for a returned object:
     StabilizerTableau     -> projector prod_i (1 + (-1)^{phase_i} P(x_i,z_i))/2  (signs included)
     CliffordTableau       -> same with its stabilizer half; the tableau must also be a valid (symplectic, paired) tableau
 
+Hardening items (STRENGTHEN_BRIEF H1/H2/H5): graph_conversions.input_forms_repeat_frames (weighted / attributed networkx
+graphs, int / float matrices), density_conversions.input_forms_repeat_frames (dtype / memory layout),
+stabilizer_conversions.repeat_frames, convert_representation.chains_copies (chains of conversions, alias names, copies) -
+every conversion twice on the same object, arguments bit-for-bit unchanged; their domains are restricted by construction
+to the classes the known findings cannot reach (canonical or validate=False / + signs / qubit 0 with X / mixed=False).
+
 Where the unchanged tree fails a clause for a whole, describable class of inputs, that class is driven by its own item so
 that (a) the rest of the domain stays a must-pass item and (b) the failing class stays visible (see C08.findings.md).
 """
@@ -454,6 +460,257 @@ S.item("convert_representation.s_other_generators.with_minus_signs", site="graph
        clause="changing the representation (s -> dm) does not change the state of a graph state held in another generating set")(_convert)
 
 
+# ------------------------------------------------------------------ hardening: input forms (H5), frames (H2), repeated use (H1)
+GRAPH_FORMS = ("nx_weighted", "nx_weighted_float", "nx_attr_edges", "array_int", "array_float")
+
+
+def _graph_form(adj, form):
+    """the same graph (vertices 0..n-1 in order) built another way"""
+    nx = _nx()
+    A = np.array(adj, dtype=int)
+    if form == "nx_weighted":  # what nx.from_numpy_array produces: every edge carries weight=1
+        return nx.from_numpy_array(A)
+    if form == "nx_weighted_float":
+        return nx.from_numpy_array(A.astype(float))
+    if form == "nx_attr_edges":  # edges added in reverse order with unrelated attributes, nodes with attributes
+        g = nx.Graph()
+        for i in range(len(A)):
+            g.add_node(i, label=f"q{i}")
+        for i in reversed(range(len(A))):
+            for j in reversed(range(i + 1, len(A))):
+                if A[i, j]:
+                    g.add_edge(j, i, color="red")
+        return g
+    if form == "array_int":
+        return A.copy()
+    if form == "array_float":
+        return A.astype(float)
+    raise ValueError(form)
+
+
+def _graph_snapshot(g):
+    import copy
+
+    if isinstance(g, np.ndarray):
+        return (g.dtype.str, g.shape, g.tobytes())
+    return (copy.deepcopy(list(g.nodes(data=True))), copy.deepcopy(sorted((min(a, b), max(a, b), sorted(d.items())) for a, b, d in g.edges(data=True))))
+
+
+@S.item("graph_conversions.input_forms_repeat_frames", site="graphiq.backends.state_rep_conversion:graph_to_density,graph_to_stabilizer",
+        bound="all labelled graphs n<=4 (thorough n<=5) x the same graph built as nx.from_numpy_array of an int / float matrix "
+              "(weight attributes), nx.Graph with node / edge attributes and edges added in reverse order, int / float adjacency "
+              "ndarray: graph_to_density, graph_to_stabilizer, get_stabilizer_tableau_from_graph, get_clifford_tableau_from_graph, "
+              "DensityMatrix.from_graph, state_to_graph (networkx forms), QuantumState g -> dm and g -> s; every function called "
+              "twice on the SAME input object",
+        exhaustive=True,
+        clause="for every graph - however it was built - the conversions produce |G>; they do not modify the graph / matrix "
+               "they are given, and a second conversion of the same object gives the same state")
+def graph_forms(inp):
+    import graphiq.backends.state_rep_conversion as rc
+    import graphiq.backends.stabilizer.functions.rep_conversion as src
+    from graphiq.backends.density_matrix.state import DensityMatrix
+
+    adj, form = inp
+    n = len(adj)
+    want = _graph_dm(adj)
+    g = _graph_form(adj, form)
+    snap = _graph_snapshot(g)
+    is_nx = not isinstance(g, np.ndarray)
+    calls = [("graph_to_density", lambda: rc.graph_to_density(g), lambda o: o),
+             ("graph_to_stabilizer", lambda: rc.graph_to_stabilizer(g),
+              lambda o: _stab_tab_dm(o[0][1]) if isinstance(o, list) and len(o) == 1 and o[0][0] == 1.0 else f"returned {o!r:.60}"),
+             ("graph_to_density[list]", lambda: rc.graph_to_density([(0.25, g), (0.75, g)]), lambda o: o)]
+    if is_nx:
+        calls += [("get_stabilizer_tableau_from_graph", lambda: src.get_stabilizer_tableau_from_graph(g), _stab_tab_dm),
+                  ("get_clifford_tableau_from_graph", lambda: src.get_clifford_tableau_from_graph(g), lambda o: _cliff_tab_dm(o, n)),
+                  ("DensityMatrix.from_graph", lambda: DensityMatrix.from_graph(g).data, lambda o: o)]
+    for rnd in (1, 2):
+        for name, call, denote in calls:
+            out = call()
+            r = _cmp_dm(denote(out), want, f"{name}[{form}] call {rnd}")
+            if r:
+                return r
+            if _graph_snapshot(g) != snap:
+                return f"{name}[{form}] modified the graph it was given"
+        if is_nx:
+            out = rc.state_to_graph(g)
+            if not (isinstance(out, tuple) and len(out) == 3 and isinstance(out[2], list)):
+                return f"state_to_graph[{form}] returned {out!r:.60}"
+            B = _adj_of(out[0], n)
+            if isinstance(B, str):
+                return B
+            w, err = _run_gates(core.graph_state(np.array(adj, dtype=int)), n, out[2])
+            if err or not core.same_state(w, core.graph_state(B)):
+                return f"state_to_graph[{form}] call {rnd}: gates {out[2]} do not map |G> onto |graph> {B.tolist()}"
+            r = _cmp_dm(_stab_tab_dm(out[1]), want, f"state_to_graph[{form}] tableau")
+            if r:
+                return r
+            if _graph_snapshot(g) != snap:
+                return f"state_to_graph[{form}] modified the graph it was given"
+    if is_nx:
+        from graphiq.state import QuantumState
+
+        for b in ("dm", "s"):
+            q = QuantumState(_graph_form(adj, form), rep_type="g")
+            q.convert_representation(b)
+            r = _cmp_dm(_qstate_dm(q, n), want, f"QuantumState({form}) g->{b}")
+            if r:
+                return r
+    return None
+
+
+@S.item("density_conversions.input_forms_repeat_frames", site="graphiq.backends.state_rep_conversion:density_to_graph,density_to_stabilizer",
+        bound="all labelled graphs n<=4 (thorough: n<=4 too; n=5 is 32x32) x |G><G| handed over as complex128, float64, Fortran-ordered "
+              "and strided-view arrays: density_to_graph (validate default and False) and density_to_stabilizer, each twice on "
+              "the same array; QuantumState dm -> g, dm -> s",
+        exhaustive=True,
+        clause="density-matrix-to-graph recovers G from |G> whatever the dtype / memory layout of the matrix, does not modify "
+               "it, and does so again on a second call")
+def density_forms(inp):
+    import graphiq.backends.state_rep_conversion as rc
+    from graphiq.state import QuantumState
+
+    adj, form = inp
+    n = len(adj)
+    want = _graph_dm(adj)
+    if form == "complex":
+        rho = np.array(want, dtype=complex)
+    elif form == "real":
+        rho = np.array(np.real(want), dtype=float)
+    elif form == "fortran":
+        rho = np.asfortranarray(np.array(want, dtype=complex))
+    else:
+        big = np.zeros((2 * len(want), 2 * len(want)), dtype=complex)
+        big[1::2, 1::2] = want
+        rho = big[1::2, 1::2]
+    snap = (rho.dtype.str, np.ascontiguousarray(rho).tobytes())
+    A = np.array(adj, dtype=int)
+    for rnd in (1, 2):
+        for val in (None, False):
+            out = rc.density_to_graph(rho) if val is None else rc.density_to_graph(rho, validate=False)
+            if isinstance(out, list):
+                return f"density_to_graph[{form}] returned a mixture for a pure graph state"
+            B = _adj_of(out, n)
+            if isinstance(B, str):
+                return B
+            if not np.array_equal(B, A):
+                return f"density_to_graph[{form}] call {rnd}: recovered {B.tolist()} != {adj}"
+        out = rc.density_to_stabilizer(rho)
+        if not (isinstance(out, list) and len(out) == 1):
+            return f"density_to_stabilizer[{form}] returned {out!r:.60}"
+        r = _cmp_dm(_stab_tab_dm(out[0][1]), want, f"density_to_stabilizer[{form}] call {rnd}")
+        if r:
+            return r
+        if (rho.dtype.str, np.ascontiguousarray(rho).tobytes()) != snap:
+            return f"a conversion modified the density matrix it was given ({form})"
+    for b in ("g", "s"):
+        q = QuantumState(np.array(rho), rep_type="dm")
+        q.convert_representation(b)
+        r = _cmp_dm(_qstate_dm(q, n), want, f"QuantumState(dm {form}) -> {b}")
+        if r:
+            return r
+    return None
+
+
+@S.item("stabilizer_conversions.repeat_frames", site="graphiq.backends.state_rep_conversion:stabilizer_to_graph,stabilizer_to_density,state_to_graph",
+        bound="graphs n<=3 x every generating set (GL(n,2)): stabilizer_to_graph(validate=False) on the SAME StabilizerTableau twice, "
+              "as tableau and as one-element list; for generating sets with + signs only (known finding C08-F2 cannot show) also "
+              "stabilizer_to_density twice; state_to_graph twice on the same StabilizerTableau / CliffordTableau for generating "
+              "sets in which qubit 0 carries an X or Y (C08-F3 cannot show)",
+        clause="stabilizer-to-graph / -density / state_to_graph give the same, correct answer on every call and leave the tableau "
+               "(table, phase) bit-for-bit unchanged")
+def stab_repeat(inp):
+    import graphiq.backends.state_rep_conversion as rc
+
+    adj, M = inp
+    n = len(adj)
+    A = np.array(adj, dtype=int)
+    rows = f_stab.change_generators(f_stab.graph_rows(adj), M)
+    tab = _mk_tab(rows)
+    t0, p0 = np.array(tab.table).copy(), np.array(tab.phase).copy()
+    want = _graph_dm(adj)
+    plus = not any(r for (_, _, r) in rows)
+    for rnd in (1, 2):
+        for arg in (tab, [(1.0, tab)]):
+            out = rc.stabilizer_to_graph(arg, validate=False)
+            if not (isinstance(out, list) and len(out) == 1 and len(out[0]) == 2):
+                return f"stabilizer_to_graph returned {out!r:.80}"
+            B = _adj_of(out[0][1], n)
+            if isinstance(B, str):
+                return B
+            if not np.array_equal(B, A):
+                return f"call {rnd}: recovered adjacency {B.tolist()} != {adj}"
+        if plus:
+            r = _cmp_dm(rc.stabilizer_to_density(tab), want, f"stabilizer_to_density call {rnd}")
+            if r:
+                return r
+        if not (np.array_equal(tab.table, t0) and np.array_equal(tab.phase, p0)):
+            return f"call {rnd}: the input tableau was modified"
+    full = f_stab.change_generators_full(f_stab.graph_full_rows(A), M)
+    if any(r[0][0] for r in full[n:]):
+        v = core.graph_state(A)
+        for arg in (_mk_tab(full[n:]), _mk_cliff(full)):
+            a0, b0 = np.array(arg.table).copy(), np.array(arg.phase).copy()
+            for rnd in (1, 2):
+                out = rc.state_to_graph(arg)
+                if not (isinstance(out, tuple) and len(out) == 3 and isinstance(out[2], list)):
+                    return f"state_to_graph returned {out!r:.60}"
+                B = _adj_of(out[0], n)
+                if isinstance(B, str):
+                    return B
+                w, err = _run_gates(v, n, out[2])
+                if err:
+                    return err
+                if not core.same_state(w, core.graph_state(B)):
+                    return f"state_to_graph({type(arg).__name__}) call {rnd}: gates {out[2]} do not map the state onto |graph> {B.tolist()}"
+                if not (np.array_equal(arg.table, a0) and np.array_equal(arg.phase, b0)):
+                    return f"state_to_graph({type(arg).__name__}) call {rnd}: the input tableau was modified"
+    return None
+
+
+REP_ALIAS = {"g": ["g", "graph"], "s": ["s", "stab", "stabilizer"], "dm": ["dm", "density matrix"]}
+CHAINS = [["dm", "dm", "s", "s", "g", "g", "dm"], ["s", "g", "s", "dm", "g", "dm", "s"], ["g", "dm", "s", "dm", "s", "g", "s"],
+          ["s", "dm", "g", "s", "g", "dm", "dm"], ["dm", "g", "dm", "g", "s", "s", "dm"], ["g", "g", "s", "g", "dm", "s", "g"]]
+
+
+@S.item("convert_representation.chains_copies", site="graphiq.state:QuantumState.convert_representation",
+        bound="all labelled graphs n<=4 x start representation {g, s, dm} x 6 fixed chains of 7 conversions over {g,s,dm} (every "
+              "ordered pair occurs, also immediately repeated targets; representation names also by their aliases 'graph', 'stab', "
+              "'stabilizer', 'density matrix'); mixed=False, canonical generators (so known findings C08-F1/F2/F6 cannot show); the "
+              "state is checked after EVERY step; a copy() taken before the chain must stay as it was and give the same result "
+              "when sent through the same chain afterwards",
+        exhaustive=True,
+        clause="changing the representation, for every ordered pair and any number of times in a row, does not change the state of a "
+               "graph state")
+def chains(inp):
+    adj, a, ci = inp
+    n = len(adj)
+    want = _graph_dm(adj)
+    q = _mk_qstate(adj, a, False, None)
+    twin = q.copy()
+    chain = CHAINS[ci]
+    for rnd, obj in ((1, q), (2, twin)):
+        if rnd == 2:
+            # the copy was not touched by the first object's conversions
+            if twin.rep_type != a:
+                return f"copy() taken before the chain changed its representation to {twin.rep_type!r}"
+            r = _cmp_dm(_qstate_dm(twin, n), want, "copy() taken before the chain")
+            if r:
+                return r
+        for k, b in enumerate(chain):
+            name = REP_ALIAS[b][(k + ci + rnd) % len(REP_ALIAS[b])]
+            src_rep = obj.rep_type
+            obj.convert_representation(name)
+            if obj.rep_type != b:
+                return f"step {k} ({src_rep}->{name}): rep_type is {obj.rep_type!r}"
+            r = _cmp_dm(_qstate_dm(obj, n), want, f"chain {chain[:k + 1]} from {a} (object {rnd}), step {k} {src_rep}->{b}")
+            if r:
+                return r
+            if obj.n_qubits != n:
+                return f"step {k}: n_qubits became {obj.n_qubits}"
+    return None
+
+
 # ------------------------------------------------------------------ domains
 def _graphs(nmax):
     out = []
@@ -579,6 +836,15 @@ def run(tier, seed):
                 cplus.append([g, "s", "s", 0, M])
     S.map("convert_representation.s_other_generators.plus_signs", cplus, nontrivial=lambda p: _nonempty(p[0]))
     S.map("convert_representation.s_other_generators.with_minus_signs", _take(cminus, 18))
+
+    # ---- hardening items
+    S.map("graph_conversions.input_forms_repeat_frames", [[g, f] for g in graphs for f in GRAPH_FORMS], nontrivial=lambda p: _nonempty(p[0]))
+    S.map("density_conversions.input_forms_repeat_frames", [[g, f] for g in _graphs(4) for f in ("complex", "real", "fortran", "view")],
+          nontrivial=lambda p: _nonempty(p[0]))
+    S.map("stabilizer_conversions.repeat_frames", [[g, M] for g in small for M in GL[len(g)]], nontrivial=lambda p: _nonempty(p[0]))
+    S.map("convert_representation.chains_copies", [[g, a, ci] for g in _graphs(4) for a in ("g", "s", "dm") for ci in range(len(CHAINS))
+                                                   ],
+          nontrivial=lambda p: _nonempty(p[0]))
 
     S.note("vertex i of a graph is qubit i (vertices 0..n-1 inserted in order); graphs with other vertex labels are not driven")
     S.note("the float GF(2) inverse inside _graph_finder/_phase_correction is exercised only through its results")
